@@ -794,14 +794,41 @@ fn authorize(w: &World, t: &ast::Template, r: &mut Rng) -> Result<String, String
     Ok(format!("{:?} reasons={} errors={}", resp.decision, resp.diagnostics.reason.len(), resp.diagnostics.errors.len()))
 }
 
+/// model correspondence on the policy level: `(polparse id tokens)` — the model's policy parser on `lex(text)` against the real
+/// parser's result (accept: the AST as a C08 `(body …)`; reject: `(none)`).
+fn polparse_line(text: &str, id: &PolicyID, res: Option<&ast::Template>, tag: &str, out: &mut Out) {
+    let ts = match lex(text) {
+        Ok(ts) => ts,
+        Err(le) => {
+            out.count("pol_lex_reject");
+            if res.is_some() { out.line("(lex-error)".into(), format!("(harness tokenizer rejected accepted policy text: {le})"), format!("{tag} {text}")); }
+            return;
+        }
+    };
+    let imp = match res {
+        Some(t) => match crate::c08::body_sx(t) { Some(b) => format!("(ok {b})"), None => { out.count("pol_outside_protocol"); return; } },
+        None => "(none)".to_string(),
+    };
+    out.count(if res.is_some() { "pp_polparse_accept" } else { "pp_polparse_reject" });
+    out.line(format!("(polparse {} {})", sx::qs(id.as_ref()), toks_sx(&ts)), imp, format!("{tag} {text}"));
+}
+
+/// `(polprint body tokens)`: the model's policy printer against `lex(Display)`, string tokens compared by value
+fn polprint_line(t: &ast::Template, printed: &str, out: &mut Out) {
+    let (Some(b), Ok(ts)) = (crate::c08::body_sx(t), lex(printed)) else { out.count("pol_outside_protocol"); return; };
+    out.count("pp_polprint");
+    out.line(format!("(polprint {b} {})", toks_sx(&ts)), "(same)".into(), format!("polprint {printed}"));
+}
+
 fn policy_case(cx: &mut Ctx, text: &str, r: &mut Rng, out: &mut Out) {
     out.cases += 1;
     let id = PolicyID::from_string("p\"0\n");
     let t = match catch_unwind(AssertUnwindSafe(|| parser::parse_policy_or_template(Some(id.clone()), text))) {
         Ok(Ok(t)) => t,
-        Ok(Err(_)) => { out.count("policy_text_rejected"); return; }
+        Ok(Err(_)) => { out.count("policy_text_rejected"); polparse_line(text, &id, None, "poltext", out); return; }
         Err(p) => { out.propfail("panic parsing policy", text, &c02::panic_msg(p)); return; }
     };
+    polparse_line(text, &id, Some(&t), "poltext", out);
     let is_template = t.slots().count() > 0;
     out.count(if is_template { "template_text_accepted" } else { "policy_text_accepted" });
     out.nontrivial(&format!("P{}", template_facts(&t)));
@@ -814,6 +841,10 @@ fn policy_case(cx: &mut Ctx, text: &str, r: &mut Rng, out: &mut Out) {
         Err(p) => out.propfail("panic printing policy through EST", text, &c02::panic_msg(p)),
     }
     for (which, p) in printed {
+        if which == "ast" {
+            polprint_line(&t, &p, out);
+            polparse_line(&p, &id, Some(&t), "polprinted", out);
+        }
         out.sample(format!("{text}  ==print({which})==>  {p}"));
         match catch_unwind(AssertUnwindSafe(|| parser::parse_policy_or_template(Some(id.clone()), &p))) {
             Err(pm) => out.propfail(&format!("panic parsing printed policy ({which} printer)"), text, &format!("printed: {p} ; {}", c02::panic_msg(pm))),
@@ -986,5 +1017,54 @@ pub fn run(args: &Args, out: &mut Out) {
         "permit(principal, action, resource) when { -9223372036854775808 < -(1) } unless { (-1).foo };",
         "permit(principal is principal, action == action::\"action\", resource in resource::\"resource\");",
         "@a permit(principal, action, resource);",
+        // scope forms the printer never produces, and the rejects of `extract_scope` / `to_ref_or_refs` / `to_action_constraint`
+        "permit(principal == (User::\"a\"), action in (Action::\"a\"), resource in ((Doc::\"d\")),);",
+        "permit(principal == ((?principal)), action in [(Action::\"a\"), NS::Action::\"b\",], resource is Doc in (?resource));",
+        "permit(principal == ?resource, action, resource);",
+        "permit(principal, action, resource == ?principal);",
+        "permit(principal: User, action, resource);",
+        "permit(principal, action: Action, resource);",
+        "permit(principal, action is Action, resource);",
+        "permit(principal, action == User::\"a\", resource);",
+        "permit(principal, action in [Action::\"a\", User::\"a\"], resource);",
+        "permit(principal, action == [Action::\"a\"], resource);",
+        "permit(principal, action == ?principal, resource);",
+        "permit(principal in [User::\"a\"], action, resource);",
+        "permit(principal is User == User::\"a\", action, resource);",
+        "permit(principal is User in User::\"a\" in User::\"b\", action, resource);",
+        "permit(principal in User::\"a\" is User, action, resource);",
+        "permit(principal is User::\"a\", action, resource);",
+        "permit(principal is 1, action, resource);",
+        "permit(principal < User::\"a\", action, resource);",
+        "permit(principal = User::\"a\", action, resource);",
+        "permit(principal == User::\"a\".b, action, resource);",
+        "permit(principal == if true then User::\"a\" else User::\"b\", action, resource);",
+        "permit(principal == \"a\", action, resource);",
+        "permit(principal == User, action, resource);",
+        "permit(principal, action);",
+        "permit();",
+        "permit(principal, action, resource, context);",
+        "permit(action, principal, resource);",
+        "permit(resource, action, principal);",
+        "permit(principal, action, resource,,);",
+        "allow(principal, action, resource);",
+        "permit(principal, action, resource) when { ?principal == principal };",
+        "permit(principal == ?principal, action, resource) unless { resource in ?resource };",
+        "permit(principal, action, resource) when { };",
+        "permit(principal, action, resource) if { true };",
+        "permit(principal, action, resource) when { true }",
+        "permit(principal, action, resource) when { true };;",
+        "permit(principal, action, resource); permit(principal, action, resource);",
+        "@id(\"a\") @id(\"b\") permit(principal, action, resource);",
+        "@id @id permit(principal, action, resource);",
+        "@id(\"\\q\") permit(principal, action, resource);",
+        "@id(x) permit(principal, action, resource);",
+        "@id() permit(principal, action, resource);",
+        "@z(\"1\") @a(\"2\") @m @if(\"3\") forbid(principal, action, resource);",
+        "permit(principal, action, resource) when { true } when { true } unless { false };",
+        "permit(principal, action, resource) when { 1 } when { true && false } unless { principal has a.b };",
+        "permit(principal is __cedar::User, action, resource);",
+        "permit(principal is if, action, resource);",
+        "permit(principal is A::B::C in A::B::C::\"\\u{1F600}\", action in [], resource);",
     ] { policy_case(&mut cx, t, &mut rng.fork(), out); }
 }
